@@ -472,7 +472,9 @@ func ruleCheckpointPrunesReplay(c *Ctx) {
 					sawCk = true
 				}
 			case *ast.FuncDecl:
-				return sawCk && sawCC
+				if c.P.funcBoundary(x) {
+					return sawCk && sawCC
+				}
 			}
 		}
 		return sawCk && sawCC
